@@ -1,6 +1,6 @@
 """C12 Every datagram request gets exactly its own response
 
-domain : workloads of 1-12 concurrent tasks calling the real
+domain : workloads of 1-12 (or 14-36 small) concurrent tasks calling the real
          EtherCat.roundtrip with tagged payloads (sizes up to and beyond the
          frame limit), sleep(0) prefixes, cancellation at generated instants;
          a bus that answers each frame after a generated latency with a keyed
@@ -35,7 +35,9 @@ RULE = ("Hypothesis draws (per task: payload size, number of sleep(0) before "
 ASSUMPTIONS = [
     "asyncio's FIFO order of ready callbacks is kept; orderings come from "
     "task start order, sleep(0) counts, latencies and cancellation instants",
-    "a cancelled request may or may not still be sent (at most once)",
+    "a request counts from the moment roundtrip() was called: cancelled "
+    "afterwards or not, it is sent exactly once; a task cancelled before it "
+    "called roundtrip() sends nothing",
     "more than 1000 ensure_future calls of the send loop within one event "
     "loop iteration are taken as a positive stall (busy loop) detection",
     "the bus answers with data = bytes of the request XOR 0x5a, so every "
@@ -62,8 +64,17 @@ def strategy(tier):
         "lose": st.sampled_from([False] * 6 + [True]),
         "dup": st.sampled_from([False] * 5 + [True]),
     })
+    small = st.fixed_dictionaries({
+        "size": st.integers(2, 40),
+        "sleeps": st.sampled_from([0, 0, 0, 1]),
+        "cancel_at": st.sampled_from([None] * 6 + [1, 2]),
+        "wkc": st.sampled_from([1, 1, 1, 0]),
+    })
     return st.fixed_dictionaries({
-        "tasks": st.lists(task, min_size=1, max_size=12),
+        # the second family: more small requests at once than a frame has
+        # room for datagrams
+        "tasks": st.lists(task, min_size=1, max_size=12)
+        | st.lists(small, min_size=14, max_size=36),
         "frames": st.lists(frame, min_size=1, max_size=8),
         "unknown": st.lists(st.integers(0, 10), max_size=2),
         # frame indexes the master's random generator draws first: small, so
@@ -227,7 +238,7 @@ def run_case(case):
     if oversize:
         facts.append("oversize-request")
     cancelled = hist.get("cancelled", [])
-    classes = [f"tasks={min(n, 12)}"]
+    classes = [f"tasks={min(n, 12)}" if n <= 12 else "tasks>12"]
     if oversize:
         classes.append("oversize")
     if cancelled:
@@ -280,13 +291,17 @@ def run_case(case):
                 continue
             return fail(f"oversize request {i} ({spec['size']} bytes) ended "
                         f"as {kind}, expected an exception to its caller")
+        if i in hist["submitted"] and i not in frame_of:
+            # roundtrip() was called: cancelled later or not, it is sent
+            return fail(f"request {i} was never sent (outcome {kind}"
+                        f"{', cancelled after it was submitted' if was_cancelled else ''})")
         if kind == "cancelled":
             if not was_cancelled:
                 return fail(f"request {i} ended cancelled but nobody "
                             f"cancelled it")
             continue
         if i not in frame_of:
-            if kind == "pending" and (was_cancelled or oversize):
+            if kind == "pending" and was_cancelled:
                 continue
             return fail(f"request {i} was never sent (outcome {kind})")
         plan = case["frames"][frame_of[i] % len(case["frames"])]
